@@ -18,7 +18,7 @@ ASSUMPTIONS = [
     "a parameter is 'settable by the caller' if two different accepted values produce different PDUs (DOPs of the generator are injective)",
     "required/free are judged on the top-level parameter list of the request/response (what required_parameters/free_parameters describe)",
 ]
-MUST_HIT = ["static-message", "dynamic-message", "prefix-checked", "prefix>=2", "omit-required", "omit-optional",
+MUST_HIT = ["free-value-honoured-checked", "static-message", "dynamic-message", "prefix-checked", "prefix>=2", "omit-required", "omit-optional",
             "alt-free", "alt-nonfree", "object-static", "BYTE-SIZE", "default-value", "out-of-order", "pk:matchreq",
             "bitmask"]
 NT = {"bitmask", "condensed-mask", "BYTE-SIZE", "out-of-order", "default-value", "dct:paramlen", "struct", "sfield",
@@ -162,7 +162,24 @@ def eval_case(case, res: core.ShardResult | None = None) -> list:
                     fails.append(_fail("optional-but-required", f"{name} is not reported as required, but omitting it makes encode fail", case))
         if not required <= free:
             fails.append(_fail("required-not-free", f"required {sorted(required)} not subset of free {sorted(free)}", case))
-    # (d) free parameters
+    # (d) free parameters: a value the caller sets for a free parameter is the value the PDU carries
+    try:
+        with mh.quiet_warnings():
+            dec = ld.decode(pdu)
+    except Exception:
+        dec = None
+    if dec is not None:
+        from vlib.checks.c01 import supplied_vs_decoded
+        for p in case["msg"]["params"]:
+            if p["pk"] in ("value", "system") and p["name"] in free and p["name"] in vals and p["name"] in dec \
+                    and p["dop"]["k"] == "simple" and p["dop"]["compu"]["c"] == "IDENTICAL" \
+                    and p["dop"]["dct"].get("mask") is None:
+                d = supplied_vs_decoded(vals[p["name"]], dec[p["name"]], p["name"])
+                cls.add("free-value-honoured-checked")
+                if d:
+                    fails.append(_fail("free-value-not-honoured", f"free parameter set to {vals[p['name']]!r} but the PDU "
+                                                                  f"{pdu.hex()} carries {dec[p['name']]!r}", case))
+                    break
     for name, alt in (case.get("alt") or {}).items():
         altv = mh.to_odx_value(alt)
         base = full if full_ok else vals
